@@ -197,3 +197,26 @@ Proof.
       exists x; split; auto; lia.
     + apply IH; auto.
 Qed.
+
+(* once a packet was sent the reference time is set (the design-review
+   finding F6 was exactly a history violating this) *)
+Lemma accepted_nonempty ul h : forall acc, acc <> [] -> sp_accepted ul acc h <> [].
+Proof.
+  induction h as [|op h IH]; intros acc Hn; simpl; auto.
+  destruct op as [now seq ts len|n|now]; auto.
+  apply IH. destruct acc as [|[[sn ts0] t0] tl]; [congruence|].
+  destruct (ul || newer16 seq sn); discriminate.
+Qed.
+
+Lemma ref_time_set ek k1 rate ul pre now seq ts len post :
+  exists t, s_ref_time (s_final ek k1 rate ul s_init (pre ++ SRtp now seq ts len :: post)) = Some t.
+Proof.
+  pose proof (ref_final ek k1 rate ul (pre ++ SRtp now seq ts len :: post) [] s_init eq_refl) as R.
+  destruct (sp_accepted ul [] (pre ++ SRtp now seq ts len :: post)) as [|[[sn ts0] t0] tl] eqn:E.
+  - exfalso. clear R. revert E. generalize (@nil (Z * Z * Z)) at 1.
+    induction pre as [|op pre IH]; intros acc; simpl.
+    + apply accepted_nonempty. destruct acc as [|[[sn ts0] t0] tl]; [discriminate|].
+      destruct (ul || newer16 seq sn); discriminate.
+    + destruct op; apply IH.
+  - destruct R as (_ & _ & _ & Ht). eexists. exact Ht.
+Qed.
